@@ -16,7 +16,7 @@ def run_one(sid):
         r = subprocess.run(["git", "apply", patch], cwd=scratch, capture_output=True, text=True)
         if r.returncode != 0: return dict(id=sid, error="patch does not apply: " + r.stderr[:200])
         fired = {}
-        env = dict(os.environ, VERIF_EVIDENCE_DIR=ev)
+        env = dict(os.environ, VERIF_EVIDENCE_DIR=ev, VERIF_CACHE_KEEP="40")
         for p in PROPS:
             out = subprocess.run([os.path.join(HERE, "vcheck"), p, "--repo", scratch], capture_output=True, text=True, env=env).stdout
             rules = sorted(set(re.findall(r"^VIOLATION property=\S+ replay=\S+ rule=(\S+) key=(.*?) site=", out, flags=re.M)))
@@ -29,10 +29,15 @@ def main(argv):
     ids = argv or sorted(x for x in os.listdir(SEEDED) if os.path.exists(os.path.join(SEEDED, x, "patch.diff")))
     mp = os.path.join(SEEDED, "matrix.json")
     res = json.load(open(mp)) if os.path.exists(mp) else {}
-    for sid in ids:
-        r = run_one(sid); res[sid] = r
-        print(sid, {k: sorted({x["rule"] for x in v}) for k, v in r.get("fired", {}).items()} or r.get("error", "NOT DETECTED"), flush=True)
-        json.dump(res, open(mp, "w"), indent=1, sort_keys=True)
+    from concurrent.futures import ThreadPoolExecutor, as_completed
+    jobs = int(os.environ.get("VERIF_JOBS", "6"))
+    with ThreadPoolExecutor(max_workers=jobs) as ex:
+        futs = {ex.submit(run_one, sid): sid for sid in ids}
+        for fu in as_completed(futs):
+            sid = futs[fu]
+            r = fu.result(); res[sid] = r
+            print(sid, {k: sorted({x["rule"] for x in v}) for k, v in r.get("fired", {}).items()} or r.get("error", "NOT DETECTED"), flush=True)
+            json.dump(res, open(mp, "w"), indent=1, sort_keys=True)
     lines = ["| seeded change | breaks | summary | caught by (own property) | also flagged by |", "|---|---|---|---|---|"]
     for sid in sorted(res):
         meta = {}
